@@ -221,6 +221,13 @@ Section Model.
     fun x => add O (sumT (map (fun kr => mul O (nthT rw (fst kr / 4)) (sq (cross_residual x (fst kr) (snd kr)))) (indexed prows0)))
                    (mul O eps (norm2 x)).
 
+  (* the same on prepared rows (after reg_split_from): ridge + Gram matrix of the rows  sum_k rw_{k/4} (v_k . x)^2 *)
+  Definition row_dot (x : list T) (row : list (nat * T)) : T := sumT (map (fun mw => mul O (snd mw) (xat x (fst mw))) row).
+  Definition qf_split_prepared (eps : T) (w : list T) (prows : list (list (nat * T))) : list T -> T :=
+    let rw := map sq w in
+    fun x => add O (sumT (map (fun kr => mul O (nthT rw (fst kr / 4)) (sq (row_dot x (snd kr)))) (indexed prows)))
+                   (mul O eps (norm2 x)).
+
   (* quadratic / bilinear form of a matrix, and its polarisation *)
   Definition bil (x : list T) (M : mat) (y : list T) : T :=
     sumT (map (fun xr => mul O (fst xr) (dot (snd xr) y)) (combine x M)).
@@ -352,6 +359,20 @@ Definition scheme_wf (s : scheme) (o : lobj) : bool :=
                  (combine (combine (o_smap o) (o_ssizes o)) (o_sw o))
       && match s with SAdaptiveSplit _ _ => Nat.eqb (length (o_signals o)) P | _ => true end
   end.
+(* a raw split-cross row (mappings, size, weights) as reg_split_from expects it: at least one vertex, room for the
+   appended own pixel (size <= max_j < width), vertices in range and distinct; [prow0] = its (vertex, weight) pairs *)
+Definition split_row_ok {A} (P max_j : nat) (r : list Z * nat * list A) : bool :=
+  let '(mp, size, w) := r in
+  (1 <=? size)%nat && (size <=? max_j)%nat && (max_j <? length w)%nat && Nat.eqb (length mp) (length w)
+  && forallb (fun z => (0 <=? z) && (z <? Z.of_nat P))%Z (firstn size mp) && nodupb (map Z.to_nat (firstn size mp)).
+Definition prow0 {A} (r : list Z * nat * list A) : list (nat * A) :=
+  let '(mp, size, w) := r in combine (map Z.to_nat (firstn size mp)) (firstn size w).
+Definition split_rows_ok {A} (width : nat) (rows : list (list Z * nat * list A)) : bool :=
+  Nat.eqb (length rows) (4 * (length rows / 4)) && forallb (split_row_ok (length rows / 4) (width - 1)) rows.
+(* prepared split rows: 4 rows per pixel, vertices in range and pairwise distinct within a row *)
+Definition prows_ok {A} (prows : list (list (nat * A))) : bool :=
+  Nat.eqb (length prows) (4 * (length prows / 4)) &&
+  forallb (fun row => forallb (fun mw => (fst mw <? length prows / 4)%nat) row && nodupb (map fst row)) prows.
 Definition square (n : nat) (H : qm) : bool := Nat.eqb (length H) n && forallb (fun r => Nat.eqb (length r) n) H.
 Definition symmetric_close (n : nat) (H : qm) : bool :=
   forallb (fun a => forallb (fun b => close (@mget QOps H a b) (@mget QOps H b a)) (seq 0 n)) (seq 0 n).
